@@ -162,6 +162,7 @@ func init() {
 		e.Block(func() bool { return !s.locked && s.readers == 0 }, "mutex lock")
 		s.locked = true
 		s.owner = e.cur.id
+		e.cur.lockDepth++
 		return nil
 	})
 	reg("(*sync.Mutex).TryLock (*sync.RWMutex).TryLock", func(e *Engine, fr *frame, a []Value) Value {
@@ -170,6 +171,7 @@ func init() {
 		if !s.locked && s.readers == 0 {
 			s.locked = true
 			s.owner = e.cur.id
+			e.cur.lockDepth++
 			return e.tb.True
 		}
 		return e.tb.False
@@ -180,6 +182,9 @@ func init() {
 			panic(e.targetPanicStr("fatal error: sync: unlock of unlocked mutex"))
 		}
 		s.locked = false
+		if e.cur.lockDepth > 0 {
+			e.cur.lockDepth--
+		}
 		e.Yield()
 		return nil
 	})
@@ -188,6 +193,7 @@ func init() {
 		s := e.syncFor(a[0].(Ptr))
 		e.Block(func() bool { return !s.locked }, "rwmutex rlock")
 		s.readers++
+		e.cur.lockDepth++
 		return nil
 	})
 	reg("(*sync.RWMutex).TryRLock", func(e *Engine, fr *frame, a []Value) Value {
@@ -205,6 +211,9 @@ func init() {
 			panic(e.targetPanicStr("fatal error: sync: RUnlock of unlocked RWMutex"))
 		}
 		s.readers--
+		if e.cur.lockDepth > 0 {
+			e.cur.lockDepth--
+		}
 		e.Yield()
 		return nil
 	})
